@@ -143,7 +143,7 @@ func (c CounterStyle) renderValue(counterValue int, counter *CounterStyleDescrip
 	// Step 2
 	counterRanges := counter.Range.Ranges
 	if counter.Range.Auto || counter.Range.IsNone() {
-		minRange, maxRange := math.MinInt32, math.MaxInt32
+		minRange, maxRange := math.MinInt, math.MaxInt // "infinite" : every counter value
 		if system == "alphabetic" || system == "symbolic" {
 			minRange = 1
 		} else if system == "additive" {
@@ -255,7 +255,11 @@ func repeating(symbols []pr.NamedString, value int) (string, bool) {
 	if len(symbols) == 0 {
 		return "", false
 	}
-	return symbol(symbols[(value-1)%len(symbols)]), true
+	index := (value - 1) % len(symbols)
+	if index < 0 { // Go's % keeps the sign of the dividend
+		index += len(symbols)
+	}
+	return symbol(symbols[index]), true
 }
 
 // Implement the algorithm for `type: non-repeating`.
@@ -328,6 +332,9 @@ func additive(symbols []pr.IntNamedString, value int) (string, bool) {
 	}
 	var parts []string
 	for _, vs := range symbols {
+		if vs.Int == 0 { // a zero weight can only represent 0
+			continue
+		}
 		repetitions := value / vs.Int
 		parts = append(parts, strings.Repeat(symbol(vs.NamedString), repetitions))
 		value -= vs.Int * repetitions
